@@ -1,7 +1,7 @@
 #!/usr/bin/env python3
 """floatio_check.py -- differential test of SC.Model.FloatIO against Rust.
 
-  python3 /verif/tools/floatio_check.py [--n 2000] [--seed S] [--jobs J]
+  python3 /verif/tools/floatio_check.py [--n 2000] [--seed S] [--jobs J] [--full-powers] [--clean]
 
 Generates stratified f64 test values and a grammar-based set of strings, asks
 the Rust oracle (/verif/harness/target/debug/sc_harness fmt) for the real
@@ -98,7 +98,7 @@ def int_to_f64_bits(z):
 
 
 # ---------------------------------------------------------------- generation
-def gen_float_cases(n, rng):
+def gen_float_cases(n, rng, full_powers=False):
     """list of (bits, prec, tag)"""
     out = []
 
@@ -149,12 +149,16 @@ def gen_float_cases(n, rng):
     # 6. powers of two and neighbours (asymmetric rounding interval)
     ks = set(range(-1074, 1024, 37)) | set(range(-70, 71)) | {-1074, -1073, -1023, -1022, -1021, 1022, 1023}
     ks |= {rng.randint(-1074, 1023) for _ in range(n // 20)}
+    if full_powers:
+        ks = set(range(-1074, 1024))
     for k in sorted(ks):
         b = f2b(math.ldexp(1.0, k))
         around(b, 1, tag="pow2")
     # 7. powers of ten and neighbours
     ks = set(range(-323, 309, 13)) | set(range(-25, 26)) | {-323, -308, -307, 308}
     ks |= {rng.randint(-323, 308) for _ in range(n // 20)}
+    if full_powers:
+        ks = set(range(-323, 309))
     for k in sorted(ks):
         b = f2b(float("1e%d" % k))
         around(b, 1, tag="pow10")
@@ -618,10 +622,13 @@ def main():
     ap.add_argument("--jobs", type=int, default=min(16, os.cpu_count() or 4))
     ap.add_argument("--timeout", type=int, default=900, help="seconds per coqc shard")
     ap.add_argument("--max-show", type=int, default=60)
+    ap.add_argument("--full-powers", action="store_true",
+                    help="include EVERY power of two and of ten (with +-1 ulp neighbours) instead of a sample")
+    ap.add_argument("--clean", action="store_true", help="delete the generated Cases/FloatIOCheck_*.v afterwards")
     args = ap.parse_args()
     rng = random.Random(args.seed)
 
-    fcs = gen_float_cases(args.n, rng)
+    fcs = gen_float_cases(args.n, rng, args.full_powers)
     # de-duplicate (bits, prec)
     seen, tmp = set(), []
     for c in fcs:
@@ -764,9 +771,10 @@ def main():
         except IndexError as ex_:
             mismatches.append("unexpected result count in %s: %s" % (path, ex_))
 
-    # tidy build products, keep the generated .v files
+    # tidy build products; the generated .v files are kept unless --clean
+    pat = r"FloatIOCheck_\d+\.(v|vo|vok|vos|glob)$" if args.clean else r"FloatIOCheck_\d+\.(vo|vok|vos|glob)$"
     for fn in os.listdir(CASES):
-        if re.match(r"FloatIOCheck_\d+\.(vo|vok|vos|glob)$", fn) or re.match(r"\.FloatIOCheck_\d+\.aux$", fn):
+        if re.match(pat, fn) or re.match(r"\.FloatIOCheck_\d+\.aux$", fn):
             os.remove(os.path.join(CASES, fn))
 
     print("floatio_check: strata: %d float values, %d parse strings, %d integers, %d integer strings; %d shards"
